@@ -28,6 +28,7 @@ import re
 import sqlite3
 import types
 import typing as tp
+import typing_extensions as te
 import uuid
 from collections.abc import Callable as abc_Callable
 from operator import attrgetter
@@ -397,19 +398,42 @@ def typed_dict_signature(obj: tp.Callable) -> inspect.Signature:
     """
     # Don't fall back to the signature for hints - that's us.
     hints = get_type_hints(obj, exhaustive=False)
-    total = getattr(obj, "__total__", True)
-    default = inspect.Parameter.empty if total else ...
+    required = _required_keys(obj, hints)
     return inspect.Signature(
         parameters=tuple(
             inspect.Parameter(
                 name=x,
                 kind=inspect.Parameter.KEYWORD_ONLY,
                 annotation=y,
-                default=getattr(obj, x, default),
+                # A key has no default exactly when every instance must have it.
+                #   (Never `getattr(obj, x)`: a key named `keys` would find `dict.keys`.)
+                default=inspect.Parameter.empty if x in required else ...,
             )
             for x, y in hints.items()
         )
     )
+
+
+def _required_keys(obj: tp.Any, hints: tp.Mapping[str, tp.Any]) -> frozenset[str]:
+    # `__total__` is the totality of the class body alone: keys inherited from a base
+    #   of the other totality keep theirs, which `__required_keys__` records.
+    required = getattr(obj, "__required_keys__", None)
+    if required is None:  # pragma: no cover
+        return frozenset(hints) if getattr(obj, "__total__", True) else frozenset()
+    required = {*required}
+    # String annotations hide `Required[...]`/`NotRequired[...]` from `typing`
+    #   when the class is created - look at the evaluated hints.
+    try:
+        extras = te.get_type_hints(obj, include_extras=True)
+    except (NameError, TypeError):  # pragma: no cover
+        extras = {}
+    for name, hint in extras.items():
+        origin = te.get_origin(hint)
+        if origin is te.NotRequired:
+            required.discard(name)
+        elif origin is te.Required:
+            required.add(name)
+    return frozenset(required)
 
 
 def tuple_signature(t: type[compat.TupleT]) -> inspect.Signature:
